@@ -313,7 +313,7 @@ var _ driver.Value
 func runC20(cfg *vc.Config, rep *vc.Report) {
 	e := newEnv(nil, "l1")
 	seenPair := map[string]bool{}
-	cfg.Cases(40000, 300000, func(i int, r *vc.Rand) {
+	cfg.Cases(40000, 2000000, func(i int, r *vc.Rand) {
 		value := vc.Pick(r, hostile)
 		if r.Chance(1, 4) { // random composition
 			value = marker
